@@ -263,6 +263,25 @@ impl RetryStream {
             Poll::Ready(response) => {
                 let http_result: HttpResult = response.into();
                 match http_result {
+                    HttpResult::Ok(response)
+                        if self.retry_state.next_byte > 0
+                            && response.status() != reqwest::StatusCode::PARTIAL_CONTENT =>
+                    {
+                        // We asked for the remainder of the file with a `Range` header. A server
+                        // is free to ignore the header and answer with the whole file (200); if we
+                        // streamed that body it would be appended to the bytes already delivered.
+                        trace!(
+                            "{:?} - range request was not answered with 206: {}",
+                            self.retry_state,
+                            response.status()
+                        );
+                        let message = format!(
+                            "range request for bytes {}- was answered with status {} instead of 206",
+                            self.retry_state.next_byte,
+                            response.status()
+                        );
+                        self.poll_err(message)
+                    }
                     HttpResult::Ok(response) => {
                         trace!("{:?} - returning from successful fetch", self.retry_state);
                         if let Some(ranges) = response.headers().get(ACCEPT_RANGES) {
